@@ -144,6 +144,14 @@ def directed():
                 out.append([["q"], ["stall"] + (["graceful"] if graceful else []),
                             ["send", "zone_ctrl", pol, "t1"], ["adv", pause], ["unstall"],
                             ["adv", 3.0], ["send", "ac_ctrl", "idem", "inline"], ["adv", 1.0]])
+    # the console is behind on reading when the link is reset for some other reason (the
+    # heartbeat's reset_connection(), a damaged frame): what is waiting in the write buffer
+    # still goes out when the console reads again
+    for why in (["reset"], ["data", "00ff13377f55aa00ff13377f55aa00ff13377f55aa"]):
+        out.append([["q"], ["stall", "graceful"], ["send", "zone_ctrl", "idem", "t1"],
+                    ["send", "ac_ctrl", "long", "t2"], ["turns", 3], why, ["adv", 1.0],
+                    ["unstall"], ["adv", 4.0], ["send", "quick_timer", "idem", "inline"],
+                    ["adv", 1.0]])
     # accepted on a healthy link and the socket closed in the very next statement: what send()
     # has accepted while connected is on the wire when it returns
     for n in (1, 3):
@@ -200,6 +208,12 @@ def check(gen, run):
     if run.status != "ok":
         v("socket-scenario-hang", status=run.status)
         return viol, obs
+    aborted = [d for _, _, k, d in log.events if k == "NET.abort" and d["dropped"]]
+    if aborted:
+        # the client itself threw away bytes of frames whose send() had returned (the
+        # transport was aborted with data still waiting for a slow reader)
+        v("written-frames-discarded-by-the-client", conn=aborted[0]["conn"],
+          bytes_dropped=aborted[0]["dropped"])
     mutated = [d for _, _, k, d in log.events if k == "NET.write_mutated"]
     if mutated:
         # what was handed to the transport while the peer was not reading was changed before
